@@ -26,7 +26,7 @@ prop("C04",
      technique="property-based testing (rapid): fault injection into resolvers, validity predicate + reference-model oracle",
      rule="C01 generator with outcome table drawn adversarially (nil, typed nil, error, value+error, panic with error/string/int, thunks that succeed/fail/yield nil, non-iterable for list, unserialisable / NaN / Inf / out-of-range / unknown-enum leaves, type resolver returning nil or a non-member, isTypeOf lying) at ~50% of reachable positions. Non-trivial = at least one override below the root level and at least one field error or thunk actually reached; distinct by hash of the case.",
      assumptions=EXEC_ASSUME,
-     runs=[dict(test="^TestC04$", quick=dict(checks=4000), thorough=dict(checks=40000, shards=16, timeout=3000))])
+     runs=[dict(test="^TestC04$", quick=dict(checks=6000), thorough=dict(checks=40000, shards=16, timeout=3000))])
 
 MANIFEST_HEAD = {
     "version": 1,
